@@ -284,10 +284,15 @@ impl CurveDist {
     fn eval_arc(&self, c: CubicBez, acc2: f64) -> Option<f64> {
         // TODO: this could perhaps be tuned.
         const EPS: f64 = 1e-9;
-        let c_arclen = c.arclen(EPS);
+        // Relative to the size of the curve once it is longer than a unit: an absolute
+        // accuracy far below the rounding error of the coordinates makes the arc length
+        // computation subdivide to its depth limit at every call.
+        let polygon_len = (c.p1 - c.p0).hypot() + (c.p2 - c.p1).hypot() + (c.p3 - c.p2).hypot();
+        let eps = EPS * polygon_len.max(1.0);
+        let c_arclen = c.arclen(eps);
         let mut max_err2 = 0.0;
         for (sample, s) in self.samples.iter().zip(&self.arcparams) {
-            let t = c.inv_arclen(c_arclen * s, EPS);
+            let t = c.inv_arclen(c_arclen * s, eps);
             let err = sample.p.distance_squared(c.eval(t));
             max_err2 = err.max(max_err2);
             if max_err2 > acc2 {
